@@ -147,30 +147,47 @@ Proof. vm_compute. reflexivity. Qed.
 Lemma wfn_fields_basis_first' : wfn_fields = ("basis", FBasis) :: tl wfn_fields.
 Proof. reflexivity. Qed.
 
+Lemma first_step w : wfn_field w ([], false) ("basis", FBasis)
+  = match dget "basis" w with Some (WBasis n) => ([("basis", WBasis n)], false) | _ => ([], true) end.
+Proof. unfold wfn_field. destruct (dget "basis" w) as [[| | | |]|]; reflexivity. Qed.
+
+Lemma bad_start_rejects w fs vals :
+  ~ exists w', (let '(values, bad) := fold_left (wfn_field w) fs (vals, true) in if bad then Err Validation else Ok values) = Ok w'.
+Proof.
+  pose proof (run_bad_sticky fs w vals) as St. unfold run in St.
+  destruct (fold_left (wfn_field w) fs (vals, true)) as [vv bb]. cbn [snd] in St. subst bb. intros [w' H]. discriminate.
+Qed.
+
+Lemma accepts_iff_gen w fs : nodupb (keys fs) = true -> smem "basis" (keys fs) = false ->
+  (exists w', (let '(values, bad) := run (("basis", FBasis) :: fs) w ([], false) in
+               if bad then Err Validation else Ok values) = Ok w')
+  <-> match dget "basis" w with Some (WBasis n) => fields_ok w n [] (("basis", FBasis) :: fs) | _ => false end = true.
+Proof.
+  intros ND NB. unfold run. cbn [fold_left]. rewrite first_step.
+  destruct (dget "basis" w) as [[| | nbf | |]|] eqn:Eb;
+    try (split; [intro H; destruct (bad_start_rejects w fs [] H)|discriminate]).
+  cbn [fields_ok fst app]. unfold field_ok at 1. rewrite Eb. cbn [andb].
+  assert (Inv0 : acc_inv w ["basis"] [("basis", WBasis nbf)]).
+  { intro s. cbn [dget smem existsb]. destruct (String.eqb_spec s "basis") as [->|]; [rewrite Eb; reflexivity|reflexivity]. }
+  assert (Hfresh : forall k, smem k (keys fs) = true -> dget k [("basis", WBasis nbf)] = None).
+  { intros k Hk. cbn [dget]. destruct (String.eqb_spec k "basis"); [|reflexivity]. subst. rewrite NB in Hk. discriminate. }
+  remember (fold_left (wfn_field w) fs ([("basis", WBasis nbf)], false)) as res eqn:Eres.
+  assert (R : snd res = negb (fields_ok w nbf ["basis"] fs)).
+  { subst res. exact (run_ok w nbf fs [("basis", WBasis nbf)] ["basis"] Inv0 eq_refl ND Hfresh NB). }
+  clear Eres. destruct res as [values bad]. simpl in R. subst bad.
+  destruct (fields_ok w nbf ["basis"] fs); cbn [negb]; split; try discriminate.
+  - reflexivity.
+  - intros _. eexists; reflexivity.
+  - intros [w' H]; discriminate.
+Qed.
+
 (** WavefunctionProperties built from the dictionary w is accepted  iff  w is acceptable *)
 Theorem wfn_validate_accepts_iff w : (exists w', wfn_validate w = Ok w') <-> wfn_acceptable w = true.
 Proof.
   unfold wfn_validate, wfn_acceptable.
   destruct (forallb (fun k => smem k (keys wfn_fields)) (keys w)); cbn [negb andb];
     [|split; [intros [w' H]; discriminate|discriminate]].
-  rewrite wfn_fields_basis_first'. cbn [fold_left fields_ok fst app].
-  unfold wfn_field at 2. unfold field_ok at 1.
-  destruct (dget "basis" w) as [[| | nbf | |]|] eqn:Eb;
-    try (pose proof (run_bad_sticky (tl wfn_fields) w []) as St; unfold run in St;
-         destruct (fold_left (wfn_field w) (tl wfn_fields) ([], true)) as [vv bb]; simpl in St; subst bb;
-         split; [intros [w' H]; discriminate|discriminate]).
-  cbn [app andb].
-  assert (Inv0 : acc_inv w ["basis"] [("basis", WBasis nbf)]).
-  { intro s. simpl. destruct (String.eqb_spec s "basis") as [->|]; [rewrite Eb; reflexivity|reflexivity]. }
-  assert (Hfresh : forall k, smem k (keys (tl wfn_fields)) = true -> dget k [("basis", WBasis nbf)] = None).
-  { intros k Hk. simpl. destruct (String.eqb_spec k "basis"); [|reflexivity]. subst. rewrite tl_fields_no_basis' in Hk. discriminate. }
-  pose proof (run_ok w nbf (tl wfn_fields) [("basis", WBasis nbf)] ["basis"] Inv0 eq_refl tl_fields_nodup' Hfresh tl_fields_no_basis') as R.
-  unfold run in R.
-  destruct (fold_left (wfn_field w) (tl wfn_fields) ([("basis", WBasis nbf)], false)) as [values bad]. simpl in R. subst bad.
-  destruct (fields_ok w nbf ["basis"] (tl wfn_fields)); simpl; split; try discriminate.
-  - reflexivity.
-  - intros _. eexists; reflexivity.
-  - intros [w' H]; discriminate.
+  exact (accepts_iff_gen w (tl wfn_fields) tl_fields_nodup' tl_fields_no_basis').
 Qed.
 
 (** Every array field is declared before every return pointer (finite check on the generated table): a pointer that names an
